@@ -1,5 +1,7 @@
 import Driver.Common
 import QlibcModel.Str.Model
+import QlibcModel.Str.ModelMore
+import QlibcModel.Encode.Model
 open Qlibc Qlibc.Str
 
 /-!
@@ -15,6 +17,11 @@ open Qlibc Qlibc.Str
     lines SIZE X                            -> ok <n> <line>/<off> ...
     tok X D                                 -> ok <n> <tok>/<stop>/<off> ... buf <block>
     tokenizer X D                           -> ok <n> <tok> ...
+    comma N                                 -> ok <string> alloc 15
+    ip4 X | email X | test CLASS X          -> true | false
+    dupf s X | dupf d N | dupf ss X Y       -> ok <string> allocs 1024[,2048…]
+    catf CAP DST s X | … d N | … ss X Y     -> ok <dst block> allocs …
+    unique SEED                             -> ok <length> <number of non-hex characters>
 
   A string argument `X` travels without terminator; the block handed to the function is
   `X ++ [0]` (exactly sized), for `repl` padded with `fillByte` up to `CAP` bytes.
@@ -48,6 +55,33 @@ def linesLoop (size : Nat) (src : Bytes) : Nat → Nat → List String → Excep
     | .error f => .error f
     | .ok none => .ok acc.reverse
     | .ok (some (buf, off')) => linesLoop size src fuel off' (s!"{hx (cstr buf)}/{off'}" :: acc)
+
+def int? (s : String) : Option Int := s.toInt?
+
+def showBool (r : Except Fault Bool) : String :=
+  match r with
+  | .ok true => "true"
+  | .ok false => "false"
+  | .error f => faultStr f
+
+def ctypeOf : String → Option (UInt8 → Bool)
+  | "digit" => some isDigitB | "upper" => some isUpperB | "lower" => some isLowerB
+  | "alpha" => some isAlphaB | "alnum" => some isAlnumB | "xdigit" => some isXdigitB
+  | "space" => some isSpaceB | "blank" => some isBlankB | "cntrl" => some isCntrlB
+  | "print" => some isPrintB | "graph" => some isGraphB | "punct" => some isPunctB
+  | _ => none
+
+/-- the text `vsnprintf` produces for the format id and its arguments -/
+def fmtOf : List String → Option Bytes
+  | ["s", x] => match arg x with | .ok b => some (cstr b) | .error _ => none
+  | ["d", n] => (int? n).map fmtD
+  | ["ss", x, y] => match arg x, arg y with
+      | .ok a, .ok b => some (fmtSS (cstr a) (cstr b))
+      | _, _ => none
+  | _ => none
+
+def showAllocs (a : List Nat) : String :=
+  " allocs " ++ (if a.isEmpty then "-" else ",".intercalate (a.map toString))
 
 def step (_ : Unit) (ws : List String) : Unit × String :=
   let out : String :=
@@ -113,6 +147,34 @@ def step (_ : Unit) (ws : List String) : Unit × String :=
            | .ok ts => s!"ok {ts.length}" ++ String.join (ts.map fun t => s!" {hx t}")
            | .error f => faultStr f)
         | _, _ => "bad-op"
+    | ["comma", n] => match int? n with
+        | some z =>
+          (match qstrCommaNumber z with
+           | .ok b => s!"ok {hx (cstr b)} alloc {b.length}"
+           | .error f => faultStr f)
+        | none => "bad-op"
+    | ["ip4", x] => match arg x with | .ok b => showBool (qstrIsIp4addr (blk b)) | .error e => e
+    | ["email", x] => match arg x with | .ok b => showBool (qstrIsEmail (blk b)) | .error e => e
+    | ["test", cls, x] => match ctypeOf cls, arg x with
+        | some p, .ok b => showBool (qstrtest p (blk b))
+        | _, _ => "bad-op"
+    | "dupf" :: fmt => match fmtOf fmt with
+        | some out =>
+          (match qstrdupf out with
+           | .ok (b, a) => s!"ok {hx (cstr b)}" ++ showAllocs a
+           | .error f => faultStr f)
+        | none => "bad-op"
+    | "catf" :: cap :: d :: fmt => match nat? cap, arg d, fmtOf fmt with
+        | some cap, .ok d, some out =>
+          let dst := blk d ++ List.replicate (cap - (d.length + 1)) fillByte
+          (match qstrcatf dst out with
+           | .ok (b, a) => s!"ok {hx b}" ++ showAllocs a
+           | .error f => faultStr f)
+        | _, _, _ => "bad-op"
+    | ["unique", _] =>
+        -- qstrunique = qhex_encode of a 16-byte MD5 digest; only length and alphabet are deterministic
+        let r := Qlibc.Encode.hexEncode (List.replicate 16 0)
+        s!"ok {r.length} {(r.filter fun c => !(isDigitB c || (97 ≤ c && c ≤ 102))).length}"
     | _ => "bad-op"
   ((), out)
 
